@@ -1010,7 +1010,17 @@ pub fn check_validators(req: &Req, ent: &EntSpec, obs: &ServeObs, out: &mut Vec<
     let want_present = obs.status == 200 || (obs.status == 206 && req.get("if-range").is_none() && !is_multi);
     let want_absent = matches!(obs.status, 304 | 412 | 416) || (obs.status == 206 && req.get("if-range").is_some());
     for (k, v) in &ent.headers {
-        let present = obs.headers.iter().any(|(hk, hv)| hk == &k.to_ascii_lowercase() && hv == v);
+        // optional whitespace around a field value is not part of the value (RFC 7230 s.3.2)
+        let trim = |mut x: &[u8]| -> Vec<u8> {
+            while let [b' ' | b'\t', r @ ..] = x {
+                x = r;
+            }
+            while let [r @ .., b' ' | b'\t'] = x {
+                x = r;
+            }
+            x.to_vec()
+        };
+        let present = obs.headers.iter().any(|(hk, hv)| hk == &k.to_ascii_lowercase() && trim(hv) == trim(v));
         if want_present && !present {
             out.push(f(&["C14"], "entity-header-missing", format!("status {}: entity header {k} missing", obs.status)));
         }
